@@ -310,6 +310,8 @@ fn main() {
     let seed: u64 = std::env::var("VERIF_SEED").ok().and_then(|s| s.parse().ok()).unwrap_or(1);
     let mut n = 0u64;
     let mut seen = 0u64;
+    // optional trace of the benign-payload run (bit digests), compared between CPU-feature builds by TLC
+    let mut trace = std::env::var("HX_TRACE").ok().map(|p| std::io::BufWriter::new(std::fs::File::create(p).unwrap()));
     read_cases(&args[1], "CASE", |c| {
         if c["fam"] != "hid" { return; }
         seen += 1;
@@ -343,7 +345,16 @@ fn main() {
                         "what": "panic", "panic": pn, "case": c}));
                     break;
                 }
-                (Ok(o), None) => reference = Some(o),
+                (Ok(o), None) => {
+                    if let Some(t) = trace.as_mut() {
+                        use std::io::Write;
+                        let mut h: u64 = 0xcbf2_9ce4_8422_2325;
+                        for w in o.0.iter().flatten() { h ^= *w; h = h.wrapping_mul(0x1000_0000_01b3); }
+                        for s in &o.1 { for b in s.bytes() { h ^= b as u64; h = h.wrapping_mul(0x1000_0000_01b3); } }
+                        writeln!(t, "{{\"c\":{},\"k\":0,\"h\":\"{:016x}\"}}", n, h).unwrap();
+                    }
+                    reference = Some(o)
+                }
                 (Ok(o), Some(rf)) => {
                     if o != *rf {
                         // locate the first differing observation
